@@ -329,12 +329,10 @@ fn check_slot<S: Spec, IC: IcKind<Idx<S>> + Default>(
         }
         if cfg.heap {
             let vals: Vec<&S::V> = sl.model.iter().collect();
-            let (lo, hi) = S::used_bounds(&vals);
+            // (a lower bound only: C18 does not restrict what else a region may account)
+            let (lo, _) = S::used_bounds(&vals);
             if region_used < lo {
                 return Err(format!("stack {which}: the region accounts {region_used} used bytes, at least {lo} are stored"));
-            }
-            if sl.pure && region_used > hi {
-                return Err(format!("stack {which}: the region accounts {region_used} used bytes, the model allows {hi}"));
             }
         }
     }
